@@ -982,6 +982,10 @@ func (w *Writer) needsParens(child ir.ExpressionHandle) bool {
 		// ArrayLength expands to "1 + ..." which contains a binary operator.
 		// Matches Rust naga: ArrayLength uses is_scoped wrapping.
 		return true
+	case ir.ExprSelect:
+		// A scalar-condition select is written as `c ? a : b`, which binds looser than
+		// every binary operator.
+		return true
 	default:
 		return false
 	}
